@@ -225,6 +225,37 @@ pub fn emit(seed: u64, n: usize, color_names_file: &str) {
             count += 1;
         }
     }
+    // identity corpus: every operator and transform with the arguments that do nothing (zero offsets, unit factors, zero or full
+    // angles, zero sizes, alpha 1), once on its own with one child and once with two children inside a union with a sibling after
+    // it: an emitter that skips or shortens a "no-op" node shows only there
+    {
+        let z3 = Pt3::new(0.0, 0.0, 0.0); let o3 = Pt3::new(1.0, 1.0, 1.0); let nz3 = Pt3::new(-0.0, 0.0, -0.0);
+        let ident: Vec<ScadOp> = vec![
+            ScadOp::Translate { v: z3 }, ScadOp::Translate { v: nz3 },
+            ScadOp::Rotate { a: Some(0.0), a_is_scalar: true, v: Pt3::new(0.0, 0.0, 1.0) }, ScadOp::Rotate { a: None, a_is_scalar: false, v: z3 },
+            ScadOp::Rotate { a: Some(360.0), a_is_scalar: true, v: z3 }, ScadOp::Rotate { a: Some(0.0), a_is_scalar: false, v: z3 },
+            ScadOp::Scale { v: o3 }, ScadOp::Scale { v: z3 },
+            ScadOp::Resize { newsize: z3, auto: false, auto_is_vec: false, autovec: (false, false, false), convexity: 0 },
+            ScadOp::Resize { newsize: z3, auto: true, auto_is_vec: true, autovec: (false, false, false), convexity: 1 },
+            ScadOp::Mirror { v: z3 }, ScadOp::Mirror { v: Pt3::new(1.0, 0.0, 0.0) },
+            ScadOp::Color { rgba: None, color: Some(colors[0]), hex: None, alpha: Some(1.0) }, ScadOp::Color { rgba: None, color: Some(colors[0]), hex: None, alpha: Some(0.0) },
+            ScadOp::Color { rgba: Some(Pt4::new(0.0, 0.0, 0.0, 0.0)), color: None, hex: None, alpha: None }, ScadOp::Color { rgba: Some(Pt4::new(1.0, 1.0, 1.0, 1.0)), color: None, hex: None, alpha: None },
+            ScadOp::Color { rgba: None, color: None, hex: Some("#000000".to_string()), alpha: None },
+            ScadOp::Offset { r: Some(0.0), delta: None, chamfer: false }, ScadOp::Offset { r: None, delta: Some(0.0), chamfer: false }, ScadOp::Offset { r: None, delta: Some(0.0), chamfer: true },
+            ScadOp::LinearExtrude { height: 0.0, center: false, convexity: 0, twist: 0.0, scale: Pt2::new(1.0, 1.0), slices: None, fn_: None },
+            ScadOp::LinearExtrude { height: 1.0, center: true, convexity: 1, twist: 360.0, scale: Pt2::new(0.0, 0.0), slices: Some(0), fn_: Some(0) },
+            ScadOp::RotateExtrude { angle: 360.0, convexity: 0, fa: None, fs: None, fn_: None }, ScadOp::RotateExtrude { angle: 0.0, convexity: 1, fa: Some(0.0), fs: Some(0.0), fn_: Some(0) },
+            ScadOp::Projection { cut: false }, ScadOp::Projection { cut: true }, ScadOp::Minkowski { convexity: 0 }, ScadOp::Minkowski { convexity: 1 },
+            ScadOp::Union, ScadOp::Difference, ScadOp::Intersection, ScadOp::Hull,
+        ];
+        let leaf = |k: u64| Scad { op: if k == 0 { ScadOp::Sphere { radius: 1.0, fa: None, fs: None, fn_: None } } else { ScadOp::Cube { size: o3, center: false } }, children: vec![] };
+        for op in ident.iter() {
+            if count + 2 > n { break; }
+            emit_case(vec![Scad { op: op.clone(), children: vec![leaf(0)] }]);
+            emit_case(vec![Scad { op: ScadOp::Union, children: vec![Scad { op: op.clone(), children: vec![leaf(1), leaf(0)] }, leaf(0)] }]);
+            count += 2;
+        }
+    }
     // every colour once
     for c in colors.iter() {
         if count >= n { break; }
